@@ -85,7 +85,11 @@ void INCLUDEStatement::loadSource(Parser& p, Context& ctx)
 
   if (_exp == nullptr)
     throw ParseError(EXC_PARSE_INV_EXPRESSION);
-  Value& val = _exp->value(ctx);
+  /* the path is evaluated while parsing: a failure is a parse error */
+  Value * pval = nullptr;
+  try { pval = &(_exp->value(ctx)); }
+  catch (RuntimeError& re) { throw ParseError(EXC_PARSE_OTHER_S, re.what()); }
+  Value& val = *pval;
   if (val.isNull())
     throw ParseError(EXC_PARSE_INV_EXPRESSION);
   FILE * progfile = ::fopen(val.literal()->c_str(), "r");
